@@ -737,7 +737,14 @@ func (c *cutter) doHuffman(isFirstBlock bool, lLengths []uint32, dLengths []uint
 			decodedLen += length
 
 		} else {
-			// It's the end-of-block.
+			// It's the end-of-block. After at least one other symbol, that
+			// symbol's budget check (below) already reserved room for the
+			// end-of-block code. For an empty block, nothing has checked yet
+			// that the end-of-block code itself fits in the budget.
+			if (checkpointIndex < 0) &&
+				((8*uint64(c.bits.index) - uint64(c.bits.nBits)) > (8 * uint64(c.maxEncodedLen))) {
+				return errInternalNoProgress
+			}
 			return nil
 		}
 
